@@ -673,11 +673,13 @@ void c11_case(Ctx& c, Rng& r) {
         c.note("roundtrip.cli-decrypt");
         if (!cli || *cli != payload) c.violation("C11:roundtrip:cli-decrypt-differs", desc().kv("has", cli.has_value()).str());
     }
+    bool b_holds_first_replica = rb.has_value() && *rb == payload;
     // (e) the same chunk id stored again (the same file uploaded twice, or the id reused for other content):
     //     the manifest of *this* store must recover *this* payload, on the storing node and on a node that
     //     already imported the first replica
     if (r.chance(1, 2)) {
         const auto payload2 = r.chance(2, 3) ? payload : r.bytes(size ? size : 1);
+        b_holds_first_replica = false;
         const auto manifest2 = A.store_chunk(id, payload2, ttl);
         const auto uri2 = protocol::encode_manifest(manifest2);
         c.note("roundtrip.repeated-stores");
@@ -734,6 +736,17 @@ void c11_case(Ctx& c, Rng& r) {
         if (got.has_value()) c.violation("C11:tamper:replica-accepted:" + how, desc().str());
         if (derived_snapshot(V) != before) c.violation("C11:tamper:rejected-replica-changed-state:" + how, desc().str());
         if (V.fetch_chunk(m2.chunk_id).has_value()) c.violation("C11:tamper:rejected-replica-returned-later:" + how, desc().str());
+        // a node that already holds the genuine replica under this very manifest is offered the tampered bytes: same answer,
+        // and it keeps serving what it stored
+        if (b_holds_first_replica && ck <= 2) {
+            std::optional<ChunkData> gotb;
+            try { gotb = B.receive_chunk(uri, ct); }
+            catch (const std::exception& e) { c.violation("C11:tamper:receive-throws:" + how, desc().kv("what", e.what()).kv("holder", true).str()); continue; }
+            c.note("tamper.attempts-on-a-node-holding-the-genuine-replica");
+            if (gotb.has_value()) c.violation("C11:tamper:replica-accepted-by-node-holding-the-genuine-one:" + how, desc().str());
+            const auto still = B.fetch_chunk(id);
+            if (!still || *still != payload) c.violation("C11:tamper:holder-no-longer-serves-the-stored-payload:" + how, desc().kv("has", still.has_value()).str());
+        }
         // CLI side: must not produce plaintext either
         protocol::ChunkPayload cp{};
         cp.chunk_id = m2.chunk_id;
